@@ -101,6 +101,9 @@ func (m *Model) DeriveValues(old, new proto.Message) {
 	}
 
 	if oldVal.PresetIndex != newVal.PresetIndex {
+		if len(m.presets) == 0 {
+			return // no presets to derive values from
+		}
 		// cap the index if needed, and update the preset and percentage
 		if newVal.PresetIndex >= int32(len(m.presets)) {
 			newVal.PresetIndex = int32(len(m.presets) - 1)
